@@ -49,8 +49,9 @@ Dry-runs on scratch copies (VERIF_REPO):
  m3 files de-duplication loop removed                      -> exit 1: extractor unreadable -> Expected facts + thorough correspondence: 20 disagreements,
                                                              failing inputs with duplicated file names
  m5 buildEnv: slices.SortFunc removed                      -> exit 1: facts, env-not-sorted / env-order-dependent with inputs
- m6 symlinks de-duplicated by Target instead of Name       -> see batch log (caught: facts + directory-not-canonical)
- m7 directory nodes with a digest never de-duplicated      -> see batch log
+ m6 symlinks de-duplicated by Target instead of Name       -> exit 1: facts (11/12), 20 disagreements, failing input directory-list-not-sorted (duplicate symlink names)
+ m7 directory nodes with a digest never de-duplicated      -> exit 1: extractor unreadable -> Expected facts + thorough correspondence: 20 disagreements,
+                                                             failing inputs directory-not-canonical / directory-list-not-sorted
  h1 harmless: `last` renamed, sort.SliceStable, loop variable renamed -> exit 0
  h2 a fix: one `last` variable per loop                    -> exit 0 (sharedLast=false is accepted by FactsOK, model follows the fact)
 """
